@@ -343,7 +343,15 @@ class Harness:
             elif c == "join":
                 a.join()
             elif c == "join_t":
-                a.join(timeout=0.0 if self.kind == "sim" else 0.03)
+                # "short" = expires on a program that hangs (any finite value does, the hang only
+                # ends when the harness triggers it) and does not expire on a program that has
+                # exited (only its pipes are read).  The value is chosen so that the machine's
+                # load cannot decide the outcome: 0.03 s while the child is alive, 5 s once it
+                # has exited (a correct wrapper returns at once).
+                if self.kind == "sim":
+                    a.join(timeout=0.0)
+                else:
+                    a.join(timeout=0.03 if self.proc_state() != "exited" else 5.0)
             elif c == "join_T":
                 a.join(timeout=LONG_TIMEOUT)
             elif c == "cancel":
@@ -786,7 +794,7 @@ def run(ctx):
     ctx.assumptions += [
         "the external program is fixtures/bin/fake_msa; its progress is triggered by the harness (no sleeps decide a verdict)",
         "join() without timeout and join(timeout=15 s) are only called when the program has exited or only waits for a reader of its pipes (they would block otherwise)",
-        "join(timeout=0.03 s) is not called on a program that waits for a reader (a race the model does not decide)",
+        "the short timeout is 0.03 s while the child is alive and 5 s once it has exited (so that machine load cannot decide the outcome); it is not used on a program that waits for a reader (a race the model does not decide)",
         "a call that has not returned after 20 s although the program is not hanging is recorded as outcome 'Hang'",
         "a program that announced (marker file) more output than a pipe holds counts as 'blocked' while it is alive",
         "after a failed launch only the clean-up obligations are specified, not the wrapper state",
